@@ -38,8 +38,9 @@ type transport struct {
 
 // inLine is a command line with the instant at which the GUI offered it.
 type inLine struct {
-	b  []byte
-	at int64
+	b     []byte
+	at    int64
+	canon string // what the history records (the line without the extra white space it travels with)
 }
 
 func newTransport(sim *Sim) *transport {
@@ -59,7 +60,11 @@ func (tr *transport) Read(p []byte) (int, error) {
 			// engine goroutine released it
 			tr.sim.ActorSleep(offLoop, 1)
 		}
-		tr.noteIn(b)
+		if m.canon != "" {
+			tr.noteIn([]byte(m.canon + "\n"))
+		} else {
+			tr.noteIn(b)
+		}
 		tr.rest = b
 	}
 	n := copy(p, tr.rest)
@@ -193,10 +198,30 @@ func firstEngineFrames(stack string) string {
 
 // Send hands a line to the protocol loop. It blocks until the loop
 // goroutine reads it. Returns false if the loop has ended (panic or quit).
-func (us *UciSession) Send(line string) bool {
+func (us *UciSession) Send(line string) bool { return us.SendWs(line, 0) }
+
+// SendWs hands over a line with extra white space (see Step.Ws).
+func (us *UciSession) SendWs(line string, ws int) bool {
 	at := us.Sim.Now()
+	raw, canon := line, ""
+	if ws > 0 {
+		tok := strings.Fields(line)
+		canon = line
+		switch ws {
+		case 1:
+			raw = line + " "
+		case 2:
+			raw = " " + line
+		case 3:
+			raw = strings.Join(tok, "  ")
+		case 4:
+			raw = strings.Join(tok, "\t")
+		default:
+			raw = "\t" + line + "  "
+		}
+	}
 	select {
-	case us.tr.ch <- inLine{b: []byte(line + "\n"), at: at}:
+	case us.tr.ch <- inLine{b: []byte(raw + "\n"), at: at, canon: canon}:
 		if us.Sim.Now() != at {
 			// the loop was busy and takes the line over on its own lattice:
 			// the GUI resumes one lattice step after that instant
